@@ -31,6 +31,8 @@ def mark_shared(interp):
             ids.add(k)
             for x in v.values():
                 walk(x)
+        elif isinstance(v, (set, frozenset)):
+            ids.add(k)
         elif isinstance(v, Cls):
             for x in v.attrs.values():
                 walk(x)
@@ -67,7 +69,7 @@ class FrameMonitor:
                 bad = "shared %s object" % target.cls.name
         elif isinstance(target, Cls):
             bad = "class %s" % target.name
-        elif isinstance(target, (list, dict)):
+        elif isinstance(target, (list, dict, set)):
             k = id(target)
             if k in self.inputs:
                 bad = "the caller's input list"
